@@ -240,6 +240,40 @@ Theorem delattr_refused : forall W c kw h h' o name,
 Proof. exact delattr_constructed_l. Qed.
 Print Assumptions delattr_refused.
 
+(* ---- deletion, in general: every attribute of every library object is private ----
+   `private_attrs h` (Spec/HeapSpec.v) holds of the empty heap and is kept by EVERY operation of
+   the case language under every variant (assignment to private attributes included), so deleting
+   a public name never finds an instance attribute.                                              *)
+Theorem private_attrs_initially : private_attrs [].
+Proof. exact Proofs.HeapPriv.priv_nil. Qed.
+Print Assumptions private_attrs_initially.
+
+Theorem private_attrs_kept : forall vt W ops e h e' h',
+  private_attrs h -> run_state vt W ops e h = (e', h') -> private_attrs h'.
+Proof. exact private_kept_l. Qed.
+Print Assumptions private_attrs_kept.
+
+Theorem delattr_public_refused : forall o name h,
+  private_attrs h -> setattr_allowed name = false -> py_delattr o name h = (h, RExc "AttributeError").
+Proof. exact delattr_public_l. Qed.
+Print Assumptions delattr_public_refused.
+
+(* histories including deletion of public names (public_op_d) *)
+Theorem frame_every_history_with_delattr : forall W ops e h e' h',
+  private_attrs h -> forallb public_op_d ops = true -> run_state as_written W ops e h = (e', h') ->
+  unchanged_ns h h' /\ values_kept h h' /\ private_attrs h'.
+Proof. exact history_d_l. Qed.
+Print Assumptions frame_every_history_with_delattr.
+
+(* from the empty heap, with no side condition: every value defined at any point of any history
+   of public operations (deletions included) is kept at every later point *)
+Theorem values_kept_in_every_history : forall W ops1 ops2 e1 h1 e2 h2,
+  forallb public_op_d (ops1 ++ ops2) = true ->
+  run_state as_written W ops1 [] [] = (e1, h1) -> run_state as_written W (ops1 ++ ops2) [] [] = (e2, h2) ->
+  values_kept h1 h2.
+Proof. exact history_from_scratch_l. Qed.
+Print Assumptions values_kept_in_every_history.
+
 (* ---- the theorem is sensitive to the copies: it FAILS without them ---- *)
 Theorem frame_refuted_extensions_no_copy :
   exists h', fst (run (with_ext NoCopy) tiny_world (QClean (KExt true) (VR 1)) heap_ext) = h' /\ ~ unchanged heap_ext h'.
